@@ -172,6 +172,27 @@ def c01_a(ctx):
                               'the other buffers are permuted by {} but `{}` receives {} - rows '
                               'are misaligned'.format(show(P)[:50], src(t), show(v)[:80]),
                               fn=f, node=s)
+    # loops that rewrite buffer rows but do not range over all buffers
+    for f in ctx.reachable([ctx.own_method(cls, 'update'), ctx.own_method(cls, 'extract_result')],
+                           depth=3, may=False):
+        if f.cls is None or not cls.is_subclass_of(f.cls):
+            continue
+        ex = ctx.ex(f)
+        for lo in [n for n in own_nodes(f.node) if isinstance(n, ast.For)]:
+            it = ex.term(lo.iter, cfg_of(f).by_stmt[id(lo)])
+            if buffers_iter_kind(it) is not None:
+                continue
+            for n in ast.walk(lo):
+                if isinstance(n, ast.Assign) and isinstance(n.targets[0], ast.Subscript):
+                    tt = ex.term(n.targets[0])
+                    v = ex.term(n.value)
+                    if tt[1][0] == 'sub' and tt[1][1] == pattern_term(SAMPLES) and \
+                            tt[1][2][0] in ('elem', 'item') and v[0] == 'sub' and v[1] == tt[1]:
+                        n_sites += 1
+                        ctx.bad(f, 'permutation applied to a subset of the buffers',
+                                'rows of the buffers are rewritten in a loop over {} which does '
+                                'not range over all outputs: the other outputs keep the old row '
+                                'order'.format(show(it)[:80]), fn=f, node=n)
     if n_sites < 4:
         ctx.undecided('only {} buffer write sites recognised'.format(n_sites))
 
@@ -414,6 +435,15 @@ def c01_d(ctx):
             ctx.check(ok, upd, 'threshold read after the merge', 'merge precedes the meta update',
                       'the threshold is read before the batch is merged and sorted', fn=upd,
                       node=metas[0])
+        ok = bool(calls_merge) and cfg_of(upd).must_pass([ctx.node(upd, c) for c in calls_merge])
+        ctx.check(ok, upd, 'every batch is merged', 'merge on every path of update',
+                  'update can return without merging the batch into the sample', fn=upd,
+                  node=calls_merge[0] if calls_merge else upd.node)
+        ok = bool(metas) and cfg_of(upd).must_pass([ctx.node(upd, c) for c in metas])
+        ctx.check(ok, upd, 'threshold refreshed after every batch',
+                  'meta update on every path of update',
+                  "update can return without refreshing state['threshold']", fn=upd,
+                  node=metas[0] if metas else upd.node)
 
 
 @obligation('C01-e', 'T1 T2', 'n_sim = batch_size x consumed batches', floor=3,
@@ -481,8 +511,14 @@ def c01_f(ctx):
     ex = ctx.ex(so)
     # objective n_batches value
     ob = [s for (s, t, k) in ctx.stores(so, 'self.objective') if k == 'assign']
+    fresh = bool(ob) and cfg_of(so).must_pass([ctx.node(so, s) for s in ob])
+    ctx.check(fresh, so, 'objective re-created for every call',
+              'self.objective = dict(...) on every path',
+              'set_objective does not build a fresh objective: entries of an earlier call '
+              '(e.g. a threshold) survive into a later budget run', fn=so,
+              node=ob[0] if ob else so.node)
     if not ob:
-        raise AnchorMissing('set_objective does not create the objective')
+        return
     v = ctx.term(so, ob[0].value)
     kws = dict(v[3]) if v[0] == 'call' else {}
     nb = kws.get('n_batches')
@@ -534,6 +570,38 @@ def c01_f(ctx):
                       "objective['n_batches'] is rewritten although no threshold was given: a "
                       'budget run would not consume exactly ceil(budget / batch_size) batches',
                       fn=f, node=s)
+    # a threshold objective keeps being re-estimated until enough draws were accepted
+    est = []
+    for f in ctx.reachable([upd], depth=2, may=False):
+        if f.cls is None or not cls.is_subclass_of(f.cls):
+            continue
+        for (s, t, k) in ctx.stores(f, "self.objective['n_batches']"):
+            est.append((f, s))
+    ok = False
+    for (f, s) in est:
+        if isinstance(s, ast.Assign) and cfg_of(f).can_reach_return(ctx.node(f, s)):
+            v = ctx.term(f, s.value)
+            alts = v[1] if v[0] == 'phi' else (v,)
+            keep = any(match(a, pattern("self.objective['n_batches'] + 1")) is not None
+                       for a in alts)
+            estm = any(contains(a, 'ceil(_)') for a in alts)
+            calls_f = [c for c in ctx.calls(upd) if f in ctx.cg.resolve(upd, c)]
+            if keep and estm and calls_f and \
+                    cfg_of(upd).must_pass([ctx.node(upd, c) for c in calls_f]):
+                # every path of f on which a threshold is set reaches the store
+                cfgf = cfg_of(f)
+                rets = [n for n in cfgf.nodes if n.kind == 'stmt' and isinstance(n.ast, ast.Return)]
+                early_ok = all(any(pol and match(tt, pattern("self.objective['threshold'] is None"))
+                                   is not None for (tt, pol, _) in ctx.guards(f, r.ast))
+                               for r in rets)
+                if early_ok and cfgf.must_follow(cfgf.entry, [ctx.node(f, s)] + rets):
+                    ok = True
+    ctx.check(ok, upd, 'threshold objective keeps sampling until enough draws are accepted',
+              'n_batches = previous + 1 while nothing is accepted, else an estimate; refreshed '
+              'after every batch',
+              "with a threshold objective the number of batches is not re-estimated after "
+              'every batch (the run would stop at the initial guess)', fn=upd,
+              node=est[0][1] if est else upd.node)
     # finished: objective <= consumed
     pi = ctx.cls(PI)
     fin = ctx.own_method(cls, 'finished')
